@@ -6,7 +6,7 @@ from common import tlc_or_die, write_ndjson, ToolError, log
 EMPTY_FIN = {'globals': [], 'heap': [], 'stack': [], 'fd': 0}
 
 
-def to_trace_record(i, rec, ref=None):
+def to_trace_record(i, rec, ref=None, chkdepth=False):
     """harness output record (run/exec with want events) -> TraceVM input record"""
     run = rec.get('run') or {}
     fin = run.get('final')
@@ -21,7 +21,7 @@ def to_trace_record(i, rec, ref=None):
         'diverged': bool(run.get('diverged', False)),
         'hasfin': fin is not None,
         'fin': {k: fin[k] for k in ('globals', 'heap', 'stack', 'fd')} if fin is not None else EMPTY_FIN,
-        'hasref': ref is not None, 'refout': ref[1] if ref else [], 'refok': bool(ref[0]) if ref else False,
+        'chkdepth': bool(chkdepth), 'hasref': ref is not None, 'refout': ref[1] if ref else [], 'refok': bool(ref[0]) if ref else False,
     }
 
 
